@@ -172,6 +172,13 @@ def ops_table(ws):
         return (lambda: ds.efth.spec.partition.bbox(bb).compute()), [bb]
 
     T["partition.bbox"] = bbox
+
+    def bbox_omitted(ds, rng):
+        # limits may be omitted (documented): the caller's dicts must not receive the defaults
+        bb = [dict(fmax=float(ds.freq[2]), dmax=180.0), dict(fmin=float(ds.freq[3]))]
+        return (lambda: ds.efth.spec.partition.bbox(bb).compute()), [bb]
+
+    T["partition.bbox(omitted limits)"] = bbox_omitted
     T["partition.ptm1_track"] = lambda ds, rng: ((lambda: ds.efth.spec.partition.ptm1_track(ds.wspd, ds.wdir, ds.dpt, swells=2).compute()), [])
 
     def np_ptm(ds, rng):
